@@ -36,6 +36,14 @@ class Unsupported(Exception):
     pass
 
 
+class Raised(Exception):
+    """a `raise` statement of the interpreted code"""
+
+    def __init__(self, name, text):
+        Exception.__init__(self, text)
+        self.name = name
+
+
 _CONTAINER_METHODS = {
     'list': ('append', 'extend', 'insert', 'pop', 'remove', 'index', 'count', 'copy', 'reverse', 'sort', 'clear'),
     'set': ('add', 'update', 'discard', 'remove', 'copy', 'union', 'intersection', 'difference', 'clear'),
@@ -73,6 +81,7 @@ class Obj:
         self.depth = 0
         self.funcs = funcs
         self.isa = set(isa)             # class names this record is an instance of (empty: any)
+        self.clsname = None             # set by absint.instance: private attributes (self.__x) are then mangled as Python does
 
     def call(self, name, *args, **kwargs):
         fn = self.methods.get(name)
@@ -80,6 +89,8 @@ class Obj:
             raise Unsupported('no method %s' % name)
         params = [a.arg for a in fn.args.args]
         env = {params[0]: (self.target if isinstance(self, _Bound) else self)}
+        if getattr(self, 'clsname', None):
+            env['__cls__'] = self.clsname
         defaults = fn.args.defaults
         for i, d in enumerate(defaults):
             env[params[len(params) - len(defaults) + i]] = ev(d, {}, self.funcs)
@@ -111,6 +122,13 @@ class _Bound:
 
 _DUNDER = {ast.Lt: '__lt__', ast.LtE: '__le__', ast.Gt: '__gt__', ast.GtE: '__ge__',
            ast.Eq: '__eq__', ast.NotEq: '__ne__'}
+
+
+def _mangled(attr, env):
+    c = env.get('__cls__')
+    if c and attr.startswith('__') and not attr.endswith('__'):
+        return '_' + c.lstrip('_') + attr
+    return attr
 
 
 def _obj_compare(t, l, r):
@@ -146,9 +164,10 @@ def ev(n, env, funcs=None):
         if isinstance(v, Table) and hasattr(v, 'attrs') and n.attr in v.attrs:
             return v.attrs[n.attr]
         if isinstance(v, Obj):
-            if n.attr in v.fields:
-                return v.fields[n.attr]
-            raise Unsupported('record has no field %s' % n.attr)
+            an = _mangled(n.attr, env)
+            if an in v.fields:
+                return v.fields[an]
+            raise Unsupported('record has no field %s' % an)
         if isinstance(v, PyStub):
             if hasattr(v, n.attr):
                 return getattr(v, n.attr)
@@ -169,7 +188,9 @@ def ev(n, env, funcs=None):
             if not -len(base) <= idx < len(base):
                 raise IndexError('index %d out of range (length %d) in %s' % (idx, len(base), ast.unparse(n)))
             return base[idx]
-        if isinstance(base, (list, tuple)) and isinstance(idx, slice):
+        if isinstance(base, (list, tuple, str)) and isinstance(idx, slice):
+            return base[idx]
+        if isinstance(base, str) and isinstance(idx, int) and -len(base) <= idx < len(base):
             return base[idx]
         raise Unsupported('subscript %s' % ast.unparse(n))
     if isinstance(n, ast.Constant):
@@ -249,6 +270,10 @@ def ev(n, env, funcs=None):
                 return set(args[0])
         if isinstance(f, ast.Name) and fname == 'dict' and not args and not n.keywords:
             return {}
+        if isinstance(f, ast.Name) and fname in ('list', 'tuple', 'set', 'len', 'sorted') and len(args) == 1 and type(args[0]).__name__ in ('dict_keys', 'dict_values', 'dict_items'):
+            args = [list(args[0])]
+        if isinstance(f, ast.Name) and fname == 'list' and len(args) == 1 and isinstance(args[0], dict):
+            return list(args[0])
         if isinstance(f, ast.Name) and fname == 'list' and len(args) == 1 and isinstance(args[0], (set, dict)):
             return sorted(args[0], key=repr)
         if isinstance(f, ast.Name) and fname in ('list', 'tuple') and len(args) <= 1 and not n.keywords:
@@ -502,10 +527,47 @@ def run_block(stmts, env, funcs=None, limit=10000):
                     key = ev(t.slice, env, funcs)
                     if isinstance(base, dict):
                         if key not in base:
-                            raise Unsupported('deletion of an absent key %r' % (key,))
+                            raise KeyError(key)
+                        del base[key]
+                        continue
+                    if isinstance(base, list) and isinstance(key, (int, slice)):
+                        if isinstance(key, int) and not -len(base) <= key < len(base):
+                            raise IndexError('del index %d out of range (length %d)' % (key, len(base)))
                         del base[key]
                         continue
                 raise Unsupported('del %s' % ast.unparse(t))
+        elif isinstance(s, ast.Raise):
+            if s.exc is None:
+                raise Unsupported('bare raise')
+            fnode = s.exc.func if isinstance(s.exc, ast.Call) else s.exc
+            raise Raised(ast.unparse(fnode).split('.')[-1], ast.unparse(s.exc)[:200])
+        elif isinstance(s, ast.Try):
+            try:
+                r = run_block(s.body, env, funcs, limit)
+            except (Raised, IndexError, KeyError, ZeroDivisionError, TypeError, AttributeError, ValueError) as ex:
+                exname = ex.name if isinstance(ex, Raised) else type(ex).__name__
+                r = None
+                for h in s.handlers:
+                    names = [] if h.type is None else [ast.unparse(x).split('.')[-1] for x in (h.type.elts if isinstance(h.type, ast.Tuple) else [h.type])]
+                    if h.type is None or exname in names or 'Exception' in names or 'BaseException' in names or \
+                            (exname in ('IndexError', 'KeyError') and 'LookupError' in names) or (exname == 'ZeroDivisionError' and 'ArithmeticError' in names):
+                        if h.name:
+                            env[h.name] = ex
+                        r = run_block(h.body, env, funcs, limit)
+                        break
+                if r is None:
+                    raise
+            else:
+                if s.orelse:
+                    r2 = run_block(s.orelse, env, funcs, limit)
+                    if r2[0] != 'fall':
+                        r = r2
+            if s.finalbody:
+                r3 = run_block(s.finalbody, env, funcs, limit)
+                if r3[0] != 'fall':
+                    r = r3
+            if r[0] != 'fall':
+                return r
         elif isinstance(s, ast.Break):
             return ('break', None)
         elif isinstance(s, ast.Continue):
@@ -543,7 +605,7 @@ def _bind(t, v, env, funcs=None):
     elif isinstance(t, ast.Attribute):
         base = ev(t.value, env, funcs)
         if isinstance(base, Obj):
-            base.fields[t.attr] = v
+            base.fields[_mangled(t.attr, env)] = v
         elif isinstance(base, PyStub):
             setattr(base, t.attr, v)
         else:
